@@ -67,8 +67,13 @@ type Channel struct {
 // NewChannel communicates the creation of a new channel with the
 // server.
 func (tds *Conn) NewChannel() (*Channel, error) {
+	// Allocation of the ID and registration of the channel must be one
+	// step as seen by other goroutines creating channels and by the
+	// goroutine routing received packets.
+	tds.tdsChannelsLock.Lock()
 	channelId, err := tds.getValidChannelId()
 	if err != nil {
+		tds.tdsChannelsLock.Unlock()
 		return nil, fmt.Errorf("error getting channel ID: %w", err)
 	}
 
@@ -88,6 +93,7 @@ func (tds *Conn) NewChannel() (*Channel, error) {
 	}
 
 	tds.tdsChannels[channelId] = tdsChan
+	tds.tdsChannelsLock.Unlock()
 
 	// channel 0 needs no setup
 	if channelId == 0 {
